@@ -19,6 +19,8 @@ LEVEL = "other"
 def run(chk):
     cfgs = ["base", "z"] if chk.tier == "quick" else ["base", "z", "hi", "noexc"]
     chk.configs = cfgs
+    chk.rule("SCALE.ClipperD", "ClipperD: inputs are scaled by scale_, every output (paths and every level of the tree) is de-scaled by invScale_ / the inherited scale: a "
+             "solution vertex left in internal units lies outside the inputs' bounding box")
     chk.rule("LOOP.bound-live", "the output builders' index loops over outrec_list_ re-read its size in every iteration: rings that CleanCollinear splits off while "
              "the solution is built (appended to the list) are emitted too - in the paths output as in the tree output")
     chk.rule("PRECEDE", "every BuildPath64/D(.., isOpen=false, ..) is preceded on all paths, for the same OutRec, by CleanCollinear, and passes reverse_solution_")
@@ -49,6 +51,8 @@ def run(chk):
         from ..engines import e9_safety as e9
         e9.rule_int64_product(db, chk, cfg)
         e10.rule_removal_restart(db, chk, cfg)
+        from ..engines import e8_scale as _e8
+        _e8.rule_clipperd(db, chk, cfg)        # "every solution vertex lies inside the bounding box of the inputs": ClipperD's outputs are de-scaled
         from ..engines import e2_state as _e2, e10_pipeline as _e10
         if _e10.rule_bound_live(db, chk, cfg, lambda cls: _e2.E2(db, chk, cfg, cls)) < 4:
             from ..extract import AnalysisBroken as _AB
